@@ -120,8 +120,12 @@ def a_cell_to_world(cell: dict) -> dict:
     sub_overrides = bool(cell.get('sub_overrides')) and fb in ('provide', 'explicit')
     lk = {'constraint': cell['constraint'], 'required': cell['required'],
           'allow_fallback': cell['allow_fallback'], 'explicit': fb == 'explicit',
-          'eform': cell.get('eform', 'pair') if sub_overrides else 'pair', 'afform': cell.get('afform', 'kw')}
+          'eform': cell.get('eform', 'pair') if sub_overrides else 'pair', 'afform': cell.get('afform', 'kw'),
+          'static': cell.get('static')}
     return {
+        'main_dl': cell.get('main_dl', 'shared'),
+        'sub_dl_how': cell.get('sub_dl_how', 'same') if fb in ('explicit', 'provide', 'configured', 'override_sub') else 'same',
+        'sub_dl_value': cell.get('sub_dl_value'),
         'system': cell['system'], 'wrap_mode': cell['wrap_mode'], 'fff': cell['fff'],
         'provide': fb in ('provide', 'configured'),
         'sub_overrides': sub_overrides,
@@ -157,6 +161,7 @@ def a_sequence_worlds(rng: random.Random, n: int) -> T.List[dict]:
                 l['eform'] = rng.choice(['pair', 'single'])
             if l['allow_fallback'] is False:
                 l['afform'] = rng.choice(['kw', 'emptyfb'])
+            l['static'] = rng.choice([None, None, True, False])
         if rng.random() < 0.5:
             seq[-1] = dict(seq[0])       # A, B, A
         # only the last lookup may be required: an error ends the configuration
@@ -166,11 +171,53 @@ def a_sequence_worlds(rng: random.Random, n: int) -> T.List[dict]:
         out.append({
             'system': rng.choice([None, '1.0', '2.0']),
             'wrap_mode': rng.choice(A_FACTORS['wrap_mode']), 'fff': rng.choice(A_FACTORS['fff']),
+            **random_dl(rng, sub),
             'provide': provide, 'sub_overrides': sub_overrides,
             'sub_download': sub and pre == 'none' and rng.random() < 0.25,
             'sub': sub, 'pre': pre, 'pver': rng.choice(['lo', 'hi']), 'optstyle': rng.choice(['D', 'long']),
             'seq': seq,
         })
+    return out
+
+
+DL_VALUES = ('shared', 'static', 'both')
+
+
+def random_dl(rng: random.Random, has_sub: bool) -> dict:
+    """default_library of the main project and how (if at all) the subproject's differs."""
+    main = rng.choice(['shared', 'shared', 'static', 'both'])
+    how = rng.choice(['same', 'same', 'default_options', 'cmdline']) if has_sub else 'same'
+    val = rng.choice([v for v in DL_VALUES if v != main]) if how != 'same' else None
+    return {'main_dl': main, 'sub_dl_how': how, 'sub_dl_value': val}
+
+
+def a_static_table(rng: random.Random, full: bool = False) -> T.List[dict]:
+    """static: on the lookup x default_library of main project vs subproject, for the link kinds that rely on the
+    subproject's meson.override_dependency(): fallback: 'sub', [provide] dependency_names, an earlier subproject()."""
+    out = []
+    for fb, extra in (('explicit', {'sub_overrides': True, 'eform': 'single'}),
+                      ('explicit', {'sub_overrides': True, 'eform': 'pair'}),
+                      ('provide', {'sub_overrides': True}),
+                      ('provide', {'sub_overrides': False}),
+                      ('override_sub', {}), ('override', {}), ('configured', {})):
+        for static in (None, True, False):
+            for main in (('shared', 'static', 'both') if full else ('shared', 'static')):
+                for how, val in [('same', None)] + [(h, v) for h in ('default_options', 'cmdline')
+                                                    for v in DL_VALUES if v != main and (full or v != 'both')]:
+                    if fb == 'override' and how != 'same':
+                        continue
+                    for req in (True, False):
+                        systems = A_FACTORS['system'] if full else (rng.choice([None, None, '2.0']),)
+                        for system in systems:
+                            cell = {'system': system, 'constraint': None, 'fb': fb, 'wrap_mode': 'default', 'fff': 'none',
+                                    'required': req, 'allow_fallback': None if fb == 'explicit' else rng.choice([None, True]),
+                                    'pver': rng.choice(['lo', 'hi']), 'static': static, 'main_dl': main,
+                                    'sub_dl_how': how, 'sub_dl_value': val, 'optstyle': rng.choice(['D', 'long'])}
+                            cell.update(extra)
+                            if rng.random() < 0.3:
+                                cell['wrap_mode'] = rng.choice(A_FACTORS['wrap_mode'])
+                                cell['fff'] = rng.choice(A_FACTORS['fff'])
+                            out.append(cell)
     return out
 
 
@@ -196,8 +243,12 @@ def a_reconfigure_worlds(rng: random.Random, n: int) -> T.List[dict]:
     return out
 
 
-def _kwargs_text(lk: dict) -> str:
+def _kwargs_text(lk: dict, world: T.Optional[dict] = None) -> str:
     parts = []
+    if lk.get('static') is not None:
+        parts.append('static: ' + ('true' if lk['static'] else 'false'))
+    if world and world.get('sub_dl_how') == 'default_options':
+        parts.append(f"default_options: ['default_library={world['sub_dl_value']}']")
     if lk['constraint'] is not None:
         parts.append(f"version: '{lk['constraint']}'")
     if not lk['required']:
@@ -224,14 +275,17 @@ def a_world_files(world: dict, root: str = '') -> T.Tuple[T.Dict[str, T.Union[st
         files['pc/.keep'] = ''
     top = ["project('top', meson_version: '>=1.0')"]
     pre = world['pre']
+    subcall = f"subproject('{SUB}')"
+    if world.get('sub_dl_how') == 'default_options':
+        subcall = f"subproject('{SUB}', default_options: ['default_library={world['sub_dl_value']}'])"
     if pre == 'configured':
-        top.append(f"subproject('{SUB}')")
+        top.append(subcall)
     elif pre == 'override':
         top.append(f"meson.override_dependency('{DEP}', declare_dependency(version: '{OVR_VERSIONS[world['pver']]}'))")
     elif pre == 'override_sub':
-        top.append(f"subproject('{SUB}')")
+        top.append(subcall)
     for i, lk in enumerate(world['seq'], 1):
-        top.append(f"d{i} = dependency('{DEP}'{_kwargs_text(lk)})")
+        top.append(f"d{i} = dependency('{DEP}'{_kwargs_text(lk, world)})")
         top.append(f"message('R|{i}|@0@|@1@|@2@'.format(d{i}.found(), d{i}.type_name(), d{i}.version()))")
     top.append("message('END')")
     files['src/meson.build'] = '\n'.join(top) + '\n'
@@ -263,6 +317,10 @@ def a_world_files(world: dict, root: str = '') -> T.Tuple[T.Dict[str, T.Union[st
     long = world.get('optstyle') == 'long'
     if world['wrap_mode'] != 'default':
         args.append(f'--wrap-mode={world["wrap_mode"]}' if long else f'-Dwrap_mode={world["wrap_mode"]}')
+    if world.get('main_dl', 'shared') != 'shared':
+        args.append(f'-Ddefault_library={world["main_dl"]}')
+    if world.get('sub_dl_how') == 'cmdline':
+        args.append(f'-D{SUB}:default_library={world["sub_dl_value"]}')
     if world['fff'] != 'none':
         val = DEP if world['fff'] == 'dep' else SUB
         args.append(f'--force-fallback-for={val}' if long else f'-Dforce_fallback_for={val}')
@@ -310,9 +368,19 @@ def _overlay_tree(evil: bool = False) -> T.Dict[str, bytes]:
     }
 
 
-def _archive(tree: T.Dict[str, bytes], fmt: str, lead: str = DIRNAME) -> bytes:
+TREE_EXTRAS = ('dangling', 'dirlink', 'readonly')
+# what tree_digest() of the driver reports for them
+EXTRA_EXPECT = {'dangling': {'dangling.lnk': 'link:does/not/exist'},
+                'dirlink': {'dirlink': 'link:lib'},
+                'readonly': {'ro/readonly.txt': hashlib.sha256(b'read-only file\n').hexdigest()}}
+
+
+def _archive(tree: T.Dict[str, bytes], fmt: str, lead: str = DIRNAME, extras: T.Sequence[str] = ()) -> bytes:
+    """`extras` (tar formats only): a dangling symlink, a symlink to a directory, a read-only file in a
+    read-only directory - the things upstream tarballs contain and a clean-up has to cope with."""
     buf = io.BytesIO()
     if fmt == 'zip':
+        assert not extras
         with zipfile.ZipFile(buf, 'w', zipfile.ZIP_STORED) as z:
             for rel in sorted(tree):
                 zi = zipfile.ZipInfo(f'{lead}/{rel}', date_time=(2020, 1, 1, 0, 0, 0))
@@ -327,6 +395,22 @@ def _archive(tree: T.Dict[str, bytes], fmt: str, lead: str = DIRNAME) -> bytes:
                 ti.mtime = 1577836800
                 ti.mode = 0o644
                 tf.addfile(ti, io.BytesIO(tree[rel]))
+            if 'dangling' in extras:
+                ti = tarfile.TarInfo(f'{lead}/dangling.lnk')
+                ti.type, ti.linkname, ti.mtime = tarfile.SYMTYPE, 'does/not/exist', 1577836800
+                tf.addfile(ti)
+            if 'dirlink' in extras:
+                ti = tarfile.TarInfo(f'{lead}/dirlink')
+                ti.type, ti.linkname, ti.mtime = tarfile.SYMTYPE, 'lib', 1577836800
+                tf.addfile(ti)
+            if 'readonly' in extras:
+                ti = tarfile.TarInfo(f'{lead}/ro')
+                ti.type, ti.mode, ti.mtime = tarfile.DIRTYPE, 0o555, 1577836800
+                tf.addfile(ti)
+                data = b'read-only file\n'
+                ti = tarfile.TarInfo(f'{lead}/ro/readonly.txt')
+                ti.size, ti.mode, ti.mtime = len(data), 0o444, 1577836800
+                tf.addfile(ti, io.BytesIO(data))
     return buf.getvalue()
 
 
@@ -419,9 +503,10 @@ def b_build(root: str, spec: dict) -> dict:
         roles['patch'] = spec['patch']
     fmt_s = roles['source']['fmt']
     fmt_p = roles['patch']['fmt'] if 'patch' in roles else 'tar'
-    pristine = {'source': _archive(_src_tree(src_has_build), fmt_s),
+    extras = tuple(spec.get('tree_extras') or ())
+    pristine = {'source': _archive(_src_tree(src_has_build), fmt_s, extras=extras),
                 'patch': _archive(_overlay_tree(), fmt_p)}
-    evil = {'source': _archive(_src_tree(src_has_build, evil=True), fmt_s),
+    evil = {'source': _archive(_src_tree(src_has_build, evil=True), fmt_s, extras=extras),
             'patch': _archive(_overlay_tree(evil=True), fmt_p)}
     other = {'source': pristine['patch'], 'patch': pristine['source']}
     files: T.Dict[str, T.Union[str, bytes]] = {}
@@ -488,6 +573,8 @@ def b_build(root: str, spec: dict) -> dict:
                                 "sp = subproject('sub')\n"
                                 "message('MARKER|' + sp.get_variable('marker'))\n")
     facts['expected_tree'] = {k: sha256(v) for k, v in expected.items()}
+    for e in extras:
+        facts['expected_tree'].update(EXTRA_EXPECT[e])
     facts['has_buildfile_when_complete'] = 'meson.build' in expected
     facts['files'] = files
     return facts
